@@ -315,7 +315,7 @@ static _Bool vec_protects(const struct vec* v, const struct node* n) {
 /* =============================== state =============================== */
 /* inputs (in_*): list of in_ne entries epool(0..ne-1) (WLOG in pool order: entry addresses are never compared), their states and slot
  * words; the thread's retire list npool(0..nl-1) (in this order), the global abandoned list npool(L..L+na-1); node address words */
-unsigned in_ne, in_nl, in_na; int in_state[XV_E]; uintptr_t in_slot[XV_E][XV_K]; uintptr_t in_addr[NN]; uint64_t in_cera[NN], in_rera[NN]; unsigned in_cb;
+unsigned in_ne, in_nl, in_na, in_xl; int in_state[XV_E]; uintptr_t in_slot[XV_E][XV_K]; uintptr_t in_addr[NN]; uint64_t in_cera[NN], in_rera[NN]; unsigned in_cb;
 static struct node* own(unsigned i) { return NODE(i); }
 static struct node* adopted(unsigned i) { return NODE(XV_L + i); }
 #define OUTSIDE (NODE(XV_L + XV_LA))
@@ -328,6 +328,7 @@ static void reset_ghost(void) {
   t_reset_n = t_setdel_n = t_scan_n = t_add_n = 0; t_seq = 0; xv_clock = 0;
 }
 static void havoc_state(void) {
+  in_xl = XV_L;   /* told to the native replay: adopted node i has index in_xl + i */
   in_ne = nondet_uint(); in_nl = nondet_uint(); in_na = nondet_uint(); XV_ASSUME(in_ne <= XV_E && in_nl <= XV_L && in_na <= XV_LA);
   for (unsigned k = 0; k < XV_E; k++) {
     in_state[k] = nondet_int(); XV_ASSUME(in_state[k] >= ES_free && in_state[k] <= ES_active);
